@@ -1548,9 +1548,10 @@ static bool big_case(std::string const& op, Toks& in, Out& impl, Out& ref)
             else if (s.op == "clr") { if (kind == "sk") { dom = false; break; } x.clear(); }
             else if (s.op == "err") { if (kind == "sk" || kind == "iv" || s.a < 0 || s.a > s.b || s.b > sz) { dom = false; break; } x.erase(x.begin() + s.a, x.begin() + s.b); }
             else if (s.op == "rsz") { if (kind != "sv" || s.a < 0 || s.a > cap) { dom = false; break; } x.resize(static_cast<std::size_t>(s.a)); }
-            else if (s.op == "cpc" || s.op == "mvc") { if (kind == "iv" && s.op == "mvc") { x.clear(); } }
+            // a moved-from inplace_vector is empty, unless its move operations are the trivial ones (int)
+            else if (s.op == "cpc" || s.op == "mvc") { if (kind == "iv" && fl != "i" && s.op == "mvc") { x.clear(); } }
             else if (s.op == "cpa") { x = y; }
-            else if (s.op == "mva") { x = y; if (kind == "iv") { y.clear(); } }
+            else if (s.op == "mva") { x = y; if (kind == "iv" && fl != "i") { y.clear(); } }
             else if (s.op == "swp") { if (kind != "sv") { dom = false; break; } v[0].swap(v[1]); }
             else { dom = false; break; }
             sizes += " " + std::to_string(v[0].size()) + " " + std::to_string(v[1].size());
